@@ -12,7 +12,7 @@ EXPLANATION = ("Deductive: the token languages the printer must hit (count, isot
 
 
 def units(tier):
-    return [G.L_TOKENS]
+    return [G.L_TOKENS] + G.U_STR_ATOMS
 
 
 def runner_tasks(tier):
